@@ -140,7 +140,7 @@ def run_session(ops, tmp):
         variants = [None, lsp.OMIT, {}, []]
         sp = variants[len(repr(ops)) % 4]
         order.append("shutdown-params:" + ("omitted" if sp is lsp.OMIT else repr(sp)))
-        resp, rc = s.shutdown(timeout=15.0, params=sp)
+        resp, rc = s.shutdown(timeout=60.0, params=sp)
     else:
         rc = s.p.poll()
     # collect everything received
@@ -154,7 +154,9 @@ def run_session(ops, tmp):
     pm = core.cli_panic(core.ANSI.sub("", err))
     if died_at is not None or resp is None or resp == "timeout":
         last = order[died_at - 1] if died_at and died_at <= len(order) and died_at > 0 else (order[-1] if order else "start")
-        if resp == "timeout" and s.p.poll() is None:
+        if resp == "timeout" and (s.p.poll() is None or (rc == 0 and not pm and died_at is None)):
+            # a wall-clock limit is not a verdict: the server was still working (it went on to obey the `exit` that
+            # follows the unanswered `shutdown` and ended with status 0)
             verdicts.append(("inconclusive", "shutdown-watchdog", ""))
         else:
             what = ("%s:%s" % (pm[0], pm[1][:50])) if pm else "exit=%s" % rc
@@ -216,6 +218,9 @@ def shard(shard_i, nshards, payload):
             npar = rng.choice([100, 150, 200])
             docs.append("PROGRAM deep3\nVAR x : INT; END_VAR\nx := " + "(" * npar + "1" + ")" * npar + ";\nEND_PROGRAM\n")
             docs += [hostile.unicode_case(rng) for _ in range(3)]
+            # character strings that run over line ends, followed by tokens further left on their line
+            docs.append("PROGRAM p\nVAR s : STRING; END_VAR\ns        := 'a\n';s := 'b';\nEND_PROGRAM\n")
+            docs.append("PROGRAM p\nVAR w : WSTRING; x : INT; END_VAR\n        w := \"é\r\n\r\n\"; x := 1;\nx := 2;\nEND_PROGRAM\n")
             # flat and long (thousands of statements, branches, labels, values, arguments ... in one construct)
             docs.append(hostile.flat_case(rng, kind=rng.choice([k for k in range(len(hostile.FLAT_KINDS)) if hostile.FLAT_KINDS[k] != "invalid-characters"])))
             # form feeds (page breaks in printed listings): between declarations, inside a line, inside a comment
